@@ -139,3 +139,11 @@ package mux
 //@   ensures result == nil ==> le32at(old(wlen()) + 16) == uint32(len(m.frames[0].data))
 //@   ensures result == nil ==> (wlen() - old(wlen())) % 2 == 0
 //@   ensures result == nil ==> forall k int :: 0 <= k && k < len(m.frames[0].data) ==> wlog(old(wlen()) + 20 + k) == m.frames[0].data[k]
+//
+//@ func (m *Muxer) AddFrame
+//@   trusted
+//@   modifies m
+//
+//@ func (m *Muxer) NumFrames
+//@   property C05
+//@   requires m != nil
